@@ -733,6 +733,28 @@ func syntaxCmd(args []string) error {
 				}
 			}
 		}
+		// (b2) bounded-exhaustive inside contexts: the lexer states that an empty context never reaches in a few symbols
+		// (task bodies, later command lines, argument lists, right-hand sides, outputs, comments, strings)
+		contexts := [][2]string{{"task a(){", "}"}, {"task a(){\nx\n", "\n}"}, {"task a(", "){}"}, {"a:=", ""}, {"a:=join(", ")"},
+			{"task a()->", "{}"}, {"#", "\ntask a(){}"}, {"task a(\"", "\"){}"}, {"task a(){x ", "\n}\n#"}}
+		ctxLen := 3
+		var recCtx func(c [2]string, mid string, depth int)
+		recCtx = func(c [2]string, mid string, depth int) {
+			run("exhaustive-in-context", c[0]+mid+c[1])
+			if depth == ctxLen {
+				return
+			}
+			for _, a := range alphabet {
+				recCtx(c, mid+a, depth+1)
+			}
+		}
+		for ci, c := range contexts {
+			for i, a := range alphabet {
+				if (ci+i)%*nshards == *shard {
+					recCtx(c, a, 1)
+				}
+			}
+		}
 		// (c) seeded random programs, each with a random prefix (truncation)
 		r := rand.New(rand.NewSource(*seed*1000003 + int64(*shard)))
 		for i := 0; i < *nrand / *nshards; i++ {
